@@ -77,6 +77,7 @@ DIST_TOL = 0.05             # distance of a fitted mean from its unit-norm proto
 ITER_PRINCIPAL = 2          # from this iteration count on the principal eigenvector / mode is judged
 ITER_MEAN = 4               # ... and the Gaussian / vMF mean (the first M-steps still carry the start's blur)
 CBMM_MAX_D = 6              # the generated Bingham gradient tables stop at D = 6 (KeyError beyond)
+CBMM_ILL_CONDITIONED = 1e6     # |Bingham eigenvalue| beyond which ComplexBingham.norm is in its cancellation regime (C07 finding)
 CBMM_MIN_PERTURBATION = 1e-4  # below: Bingham concentrations > 1e8, normaliser/solver break down (counted, see search)
 # vMFMM on exactly noise-free classes exposed a defect of VonMisesFisherTrainer._fit (r_bar = 1 + 1 ulp made the
 # concentration negative -> clipped to min_concentration); fixed in /repo by ed19db2.  Perturbation-0 scenes are judged
@@ -308,6 +309,16 @@ def _fixed_point(family, y, e, init, labels, proto_y, proto_e, iterations):
         if gaussian and _reference_agrees(family, y, init, iterations, post, labels):
             return Skip('textbook EM itself leaves the true partition on this input (Gaussian family, reference EM agrees)')
         idx = tuple(bad[0])
+        if family == 'cbmm':
+            conc = float(np.max(np.abs(model.complex_bingham.covariance_eigenvalues)))
+            if conc > CBMM_ILL_CONDITIONED:
+                # Bingham concentrations of 1e6 and more: ComplexBingham.norm cancels catastrophically (known finding of C07)
+                # and the fitted log-normalisers jump with ulp-level changes of the input; own key, so that a mis-ranking
+                # at moderate concentrations is still reported
+                return Fail('misranked:cbmm:concentration>1e6',
+                            f'cbmm: after {iterations} iterations {len(bad)} of {labels.size} observations are mis-ranked; the '
+                            f'fitted Bingham eigenvalues reach {conc:.3g} in magnitude (normaliser evaluated in its '
+                            f'cancellation regime)')
         return Fail(f'misranked:{family}',
                     f'{family}: after {iterations} iterations {len(bad)} of {labels.size} observations have a maximum-'
                     f'posterior class other than their true class, e.g. observation {idx}: true {int(labels[idx])}, '
